@@ -1,6 +1,6 @@
 (* Concrete data for the C05 examples: real lines of the bundled schemas and the witnesses of the
    boundary / refuted statements.  All proofs are kernel evaluations. *)
-From Coq Require Import List NArith ZArith Bool.
+From Coq Require Import List NArith ZArith Bool Lia.
 From HV Require Import Base.Res Base.Str Base.StrOps Model.AttrCodec Model.WikiCodec Model.Traversal.
 Import ListNotations.
 
@@ -139,11 +139,13 @@ Lemma ex_section :
     Forall (fun e => name_ok (last (ti_path e) []) = true /\ desc_ok (ti_desc e) = true /\ attr_ok (ti_attrs e) = true
                      /\ wiki_text_ok (format_tag_attributes no_dis (ti_attrs e)) = true) sec_items /\
     Forall2 (fun e line => row_free_of_reserved true (last (ti_path e) []) line = true) sec_items lines /\
+    paths_parents_first [] (map ti_path sec_items) /\
     read_tag_section true [] lines = Ok sec_items.
 Proof.
   exists sec_lines. split; [vm_compute; reflexivity|].
   split; [repeat constructor|].
-  split; [repeat constructor | vm_compute; reflexivity].
+  split; [repeat constructor|].
+  split; [cbn [paths_parents_first map ti_path sec_items]; repeat split; first [discriminate | reflexivity | (simpl; lia)] | vm_compute; reflexivity].
 Qed.
 
 (* ---- traversal: a small partnered library ---- *)
